@@ -632,4 +632,95 @@ theorem iter_dead (hfn : P.n + 1 ≤ fuel) (hfr : P.row.length ≤ fuel) (hea : 
     exact hd
 end Iter
 
+
+theorem isoStep_lenList_nonneg (P : Params) (i : Nat) (s : St) (he0 : s.err = none) (he : (isoStep P i s).err = none) :
+    0 ≤ (isoStep P i s).lenList := by
+  obtain ⟨c, kk, _, _, _, hiso⟩ := isoStep_inv P i s he0 he
+  rw [hiso]; simp [isod]
+
+section For
+variable (P : Params) (oracle : Nat → Bool) (fuel : Nat) (ea : Int)
+
+/-- the main loop dies when `forLoop` faults -/
+theorem for_dead (hfn : P.n + 1 ≤ fuel) (hfr : P.row.length ≤ fuel) (hea : ea = if P.eightAbove then 1 else 0) :
+    ∀ (cnt f i : Nat) (k : ThetaSt OSt) (m : St), Rel P k m → k.i = (i : Int) → Qs m → 0 ≤ m.lenList →
+    (i : Int) + (cnt : Int) = P.m → (forLoop P cnt i m).err ≠ none →
+    Dead (whileF (ThetaSt.live obs)
+        (fun s => match theta_chain_comput_strategy_loop3_cond obs P.row oracle fuel P.n ea s with | .ok b => b | .error _ => true)
+        (fun s => match theta_chain_comput_strategy_loop3_cond obs P.row oracle fuel P.n ea s with
+          | .ok _ => theta_chain_comput_strategy_loop3_body obs P.row oracle fuel P.n ea s | .error f => s.fail f)
+        (fun s => s.fail .fuel) f k) := by
+  intro cnt
+  induction cnt with
+  | zero => intro f i k m R _ _ _ _ he; exact absurd R.me he
+  | succ cnt ih =>
+    intro f i k m R hki hqs hll hi he
+    have hm : P.m = (P.n : Int) - 1 - (P.adj : Int) := rfl
+    have hlive : ThetaSt.live obs k = true := by simp [ThetaSt.live, obs, R.kf, R.kb]
+    have hcond : (ThetaSt.live obs k && (match theta_chain_comput_strategy_loop3_cond obs P.row oracle fuel P.n ea k with
+        | .ok b => b | .error _ => true)) = true := by
+      simp [theta_chain_comput_strategy_loop3_cond, hki, R.ad, hlive]; omega
+    cases f with
+    | zero => simp only [whileF, hcond, if_true]; exact dead_of_fault _ .fuel rfl
+    | succ f' =>
+      rw [whileF_step _ _ _ _ _ _ hcond]
+      have hbody : (match theta_chain_comput_strategy_loop3_cond obs P.row oracle fuel P.n ea k with
+          | .ok _ => theta_chain_comput_strategy_loop3_body obs P.row oracle fuel P.n ea k | .error f => k.fail f) =
+          theta_chain_comput_strategy_loop3_body obs P.row oracle fuel P.n ea k := by
+        simp [theta_chain_comput_strategy_loop3_cond]
+      rw [hbody]
+      simp only [forLoop] at he
+      by_cases he1 : (isoStep P i (whileLoop P i (headStep P i m))).err = none
+      · obtain ⟨R', hi', hqs'⟩ := iter_sim P oracle fuel ea (by omega) hfr hea i (by omega) k m R hki hqs he1
+        have hw : (whileLoop P i (headStep P i m)).err = none :=
+          err_none_of (α := Unit) _ _ (isoStep_err P i) he1
+        exact ih f' (i + 1) _ _ R' (by rw [hi']; push_cast; rfl) hqs' (isoStep_lenList_nonneg P i _ hw he1)
+          (by push_cast; omega) he
+      · have hd := iter_dead P oracle fuel ea hfn hfr hea i (by omega) k m R hki hll he1
+        rw [whileF_dead _ _ _ _ _ hd]; exact hd
+end For
+
+/-! ### the complete routine -/
+
+theorem finalSteps_err_iff (P : Params) (s : St) (he0 : s.err = none) :
+    (finalSteps P s).err ≠ none ↔
+      (P.eightAbove = false ∧ ¬ (idxOK ((P.n : Int) - 4) (P.n - 1) = true ∧ (s.q 0).isSome = true)) := by
+  by_cases hea : P.eightAbove = true
+  · simp [finalSteps, he0, hea]
+  · have hea' : P.eightAbove = false := by simpa using hea
+    by_cases hidx : idxOK ((P.n : Int) - 4) (P.n - 1) = true
+    · cases hq : s.q 0 with
+      | none => simp [finalSteps, he0, hea', hidx, hq, St.fail]
+      | some o => simp [finalSteps, he0, hea', hidx, hq, St.emit]
+    · simp [finalSteps, he0, hea', hidx, St.fail]
+
+theorem glueStep_err_iff (P : Params) (s : St) (he0 : s.err = none) :
+    (glueStep P s).err ≠ none ↔
+      ¬ (idxOK (s.lenList - 1) P.n = true ∧ (s.pts (s.lenList - 1).toNat).isSome = true) := by
+  by_cases hidx : idxOK (s.lenList - 1) P.n = true
+  · have hidx' := hidx
+    simp [idxOK] at hidx'
+    obtain ⟨c, hc⟩ : ∃ c : Nat, s.lenList - 1 = (c : Int) := ⟨(s.lenList - 1).toNat, by omega⟩
+    have hidxc : idxOK (c : Int) P.n = true := by rw [← hc]; exact hidx
+    have hct : (s.lenList - 1).toNat = c := by omega
+    rw [hct]
+    cases ho : s.pts c with
+    | none => simp [glueStep, he0, hc, hidxc, ho, St.fail]
+    | some kk => simp [glueStep, he0, hc, hidxc, ho]
+  · simp [glueStep, he0, hidx, St.fail]
+
+theorem ev_evalR_bad (o : OSt) (x i : Int) (h : o.inb 5 i = false) : (ev o 16 [x, i]).bad = true := by
+  by_cases hb : o.bad = true
+  · simp [ev, hb]
+  · have hb' : o.bad = false := by simpa using hb
+    simp [ev, hb', h, OSt.fail]
+
+theorem ev_step4_bad (o : OSt) (x i y z : Int) (h : o.r1 = none) : (ev o 14 [x, i, y, z]).bad = true := by
+  by_cases hb : o.bad = true
+  · simp [ev, hb]
+  · have hb' : o.bad = false := by simpa using hb
+    by_cases hs : o.inb 5 i = true
+    · simp [ev, hb', hs, h, OSt.fail]
+    · simp [ev, hb', hs, OSt.fail]
+
 end SqiProofs.SkelThetaConv
